@@ -43,6 +43,11 @@ class Oracle(object):
         self.extent = float(max(self.hi - self.lo))
         self.maxcoord = float(np.abs(allp).max())
         self.polys = [p - self.ref for p in polys]
+        # a geometric (run-independent) numbering of the columns for the input generators: refine() names and orders
+        # its new columns differently from run to run
+        cen = [p.mean(axis=0) for p in self.polys]
+        self.canon = sorted(range(self.ncol), key=lambda j: (round(float(cen[j][0]), 6), round(float(cen[j][1]), 6)))
+        self.rank = dict((j, r) for r, j in enumerate(self.canon))
         x1, y1, x2, y2, owner, starts = [], [], [], [], [], []
         for i, p in enumerate(self.polys):
             starts.append(len(x1))
@@ -111,6 +116,16 @@ class Oracle(object):
             t = np.clip((px * sx + py * sy) / s2, 0., 1.)
             out[s:s + m] = np.sqrt((px - t * sx) ** 2 + (py - t * sy) ** 2).min(axis=1)
         return out
+
+    def random_column(self, rs): return self.canon[rs.randint(self.ncol)]
+
+    def sample_poly(self, ci):
+        """global polygon of column ci, starting at its lowest-leftmost vertex (run-independent)"""
+        p = self.polys[ci]
+        k = min(range(len(p)), key=lambda j: (round(float(p[j][0]), 6), round(float(p[j][1]), 6)))
+        p = np.roll(p, -k, axis=0)
+        if (p[1][0] - p[0][0]) * (p[2][1] - p[0][1]) - (p[1][1] - p[0][1]) * (p[2][0] - p[0][0]) < 0: p = np.vstack([p[:1], p[:0:-1]])
+        return p + self.ref
 
     def in_poly(self, ci, p):
         poly = self.polys[ci]
@@ -207,7 +222,7 @@ def make_geo(spec):
         geo.refine([c for c in geo.columnlist[spec['refine']['offset']::spec['refine']['every']]])
     if spec.get('surfaces'):
         b = [float(l.bottom) for l in geo.layerlist]
-        for col in geo.columnlist:
+        for col in sorted(geo.columnlist, key=lambda c: (round(float(c.centre[0]), 6), round(float(c.centre[1]), 6))):
             u = rnd.random()
             if u < 0.25: continue
             if u < 0.45: s = b[0] + rnd.uniform(0.05, 1.5) * (b[0] - b[1])
@@ -262,17 +277,17 @@ def gen_points(O, rs, n):
         if u < 0.35:
             p = O.lo - 0.15 * span + rs.rand(2) * 1.3 * span; k = 'bbox'
         elif u < 0.65:
-            poly = O.polys[rs.randint(O.ncol)] + O.ref
+            poly = O.sample_poly(O.random_column(rs))
             w = rs.dirichlet(np.ones(len(poly))); p = (w[:, None] * poly).sum(axis=0); k = 'in-column'
         elif u < 0.80:
-            nd = O.nodes[rs.randint(len(O.nodes))] + O.ref       # same y (or x) as a vertex: the half-open crossing rule
+            nd = O.sample_poly(O.random_column(rs))[0]           # same y (or x) as a vertex: the half-open crossing rule
             p = O.lo + rs.rand(2) * span
             if rs.rand() < 0.7: p[1] = nd[1]
             else: p[0] = nd[0]
             k = 'vertex-aligned'
         elif u < 0.92:
-            ci = rs.randint(O.ncol)
-            poly = O.polys[ci] + O.ref
+            ci = O.random_column(rs)
+            poly = O.sample_poly(ci)
             v = poly[rs.randint(len(poly))]
             ang = rs.rand() * TWO_PI
             p = v + O.maxside[ci] * 10 ** rs.uniform(-4, -1) * np.array([math.cos(ang), math.sin(ang)]); k = 'near-vertex'
@@ -299,10 +314,10 @@ def point_contracts(geo, O, R, rs, npoints, aids):
         R.distinct.add((R.tag, kinds[i], ti is not None))
         item = 'point (%r, %r)' % (float(pos[0]), float(pos[1]))
         # the aids
-        far = cols[rs.randint(O.ncol)]
-        if ti is not None and O.nbr[ti]: nb = cols[sorted(O.nbr[ti])[rs.randint(len(O.nbr[ti]))]]
-        else: nb = cols[rs.randint(O.ncol)]
-        sub_idx = set(np.nonzero(rs.rand(O.ncol) < 0.3)[0].tolist())
+        far = cols[O.random_column(rs)]
+        if ti is not None and O.nbr[ti]: nb = cols[sorted(O.nbr[ti], key=O.rank.get)[rs.randint(len(O.nbr[ti]))]]
+        else: nb = cols[O.random_column(rs)]
+        sub_idx = set(O.canon[j] for j in np.nonzero(rs.rand(O.ncol) < 0.3)[0].tolist())
         if ti is not None: sub_idx.add(ti)
         if not sub_idx: sub_idx.add(0)
         subset = [cols[j] for j in sorted(sub_idx)]
@@ -314,12 +329,12 @@ def point_contracts(geo, O, R, rs, npoints, aids):
                  ('column_subset', {'columns': subset}),
                  ('column_qtree', {'qtree': qtree}),
                  ('column_guess_qtree', {'guess': nb, 'qtree': qtree}),
-                 ('column_subset_guess', {'columns': subset, 'guess': subset[rs.randint(len(subset))]}),
+                 ('column_subset_guess', {'columns': subset, 'guess': cols[sorted(sub_idx, key=O.rank.get)[rs.randint(len(sub_idx))]]}),
                  ('column_bounds_guess_qtree', {'bounds': bpoly, 'guess': far, 'qtree': qtree})]
         if truth is not None: calls.insert(1, ('column_guess_right', {'guess': truth}))
         if i % 8 == 0:
             # a quadtree over a column subset: a contiguous patch around the answer, and the scattered subset
-            start = ti if ti is not None else rs.randint(O.ncol)
+            start = ti if ti is not None else O.random_column(rs)
             patch, frontier = set([start]), [start]
             while frontier and len(patch) < 40:
                 j = frontier.pop(0)
@@ -413,7 +428,7 @@ def gen_line(O, rs):
 
     def endpoint(kind):
         if kind == 'in':
-            poly = O.polys[rs.randint(O.ncol)] + O.ref
+            poly = O.sample_poly(O.random_column(rs))
             w = rs.dirichlet(np.ones(len(poly))); return (w[:, None] * poly).sum(axis=0)
         if kind == 'box': return O.lo - 0.2 * span + rs.rand(2) * 1.4 * span
         return O.lo - 2 * span + rs.rand(2) * 5 * span
@@ -426,8 +441,8 @@ def gen_line(O, rs):
     elif u < 0.95: k = ('far', 'in')
     else: k = ('short', 'short')
     if k[0] == 'short':
-        ci = rs.randint(O.ncol)
-        poly = O.polys[ci] + O.ref
+        ci = O.random_column(rs)
+        poly = O.sample_poly(ci)
         w = rs.dirichlet(np.ones(len(poly))); A = (w[:, None] * poly).sum(axis=0)
         ang = rs.rand() * TWO_PI
         B = A + O.maxside[ci] * rs.uniform(0.05, 3.) * np.array([math.cos(ang), math.sin(ang)])
